@@ -1798,6 +1798,154 @@ def threshold_types_case(tv_seed, res, problems):
         problem(fname, f"the default argument `{name}` changed from {before} to {now}")
 
 
+# ------------------------------------------------------------------ short records in every documented container form
+# Quantifier covered: "for all validation/future datasets of any grid shape ... and any number of years (including one)".
+# A data set is a [time, lat, lon] array of ANY record length; the public functions take it bare, or wrapped in the
+# documented pair containers ([data, time] / (data, time) for calculate_marginal_bias and calculate_bias_days_metrics,
+# debiaser = [validation, future] for the trend functions, key = [x1, x2(, time)] for the conditional exceedance).
+# Every generator above produces records of >= 6 time steps, so a record whose LENGTH coincides with the length of one
+# of these containers (2, 3), with a grid dimension (T == lat, T == lon) or with 1 was never evaluated — and a bare array
+# of two time steps is exactly what a "pair" test by len() confuses with [data, time].  Here the record lengths are 1..4
+# (2 most often; the observations, the validation and the future period each have their own), the record may straddle a
+# New Year (two time steps = two years), and every argument independently comes bare, as a list or as a tuple.
+# Demanded: the documented formula at every location (same reference functions as the other oracles, same guards: a
+# row is judged only when every denominator is non-zero) — a wrong shape, a raise or a dropped row is a violation.
+SR_GRIDS = [(1, 1), (1, 2), (2, 1), (2, 2), (1, 3), (3, 1), (2, 3), (3, 2)]
+SR_LENS = [1, 2, 2, 2, 2, 3, 3, 4]
+SR_STATS = [["mean", 0.05, 0.95], ["mean", 0.5], [0.25, "mean", 0.75], ["mean"], [0.0, 1.0, "mean"]]
+
+
+def short_record_case(sr_seed, res, problems):
+    """One grid, records of 1-4 time steps, through all five public functions; real code + oracle only; the whole case is
+    regenerated from sr_seed (replay)."""
+    from ibicus.evaluate import marginal, multivariate, trend
+    from ibicus.evaluate.metrics import ThresholdMetric
+
+    rng = random.Random(sr_seed)  # its own generator: the seed alone reproduces the case
+    I, J = rng.choice(SR_GRIDS)
+    lens = {"obs": rng.choice(SR_LENS), "rawV": rng.choice(SR_LENS), "rawF": rng.choice(SR_LENS)}
+    lens.update(bcV=lens["rawV"], bcF=lens["rawF"])
+    names = ["obs", "rawV", "bcV", "rawF", "bcF"]
+    D = {n: gen_data(rng, lens[n], I, J, "regular") for n in names}
+    mss = []
+    for _ in range(2):
+        kind = rng.choice(["higher", "lower", "between", "outside"])
+        a8 = rng.randint(40, 88)
+        mss.append((kind, a8 / 8.0, None if kind in ("higher", "lower") else (a8 + rng.randint(8, 32)) / 8.0))
+    mobj = [ThresholdMetric(threshold_value=m[1] if m[2] is None else [m[1], m[2]], threshold_type=m[0], name=f"event{n}") for n, m in enumerate(mss)]
+    for n in names:  # the metrics occur at least once per column where the record allows it (they are denominators)
+        x = D[n]
+        for i in range(I):
+            for j in range(J):
+                for m in mss:
+                    if not holds(m, x[:, i, j]).any() and rng.random() < 0.8:
+                        kind, a, b = m
+                        x[rng.randrange(x.shape[0]), i, j] = {"higher": a + 1, "lower": a - 1, "between": (a + (b or a)) / 2, "outside": a - 1}[kind]
+    stats = list(rng.choice(SR_STATS))
+
+    def axis(T, y0):  # consecutive days; every second axis straddles a New Year when T >= 2
+        if T >= 2 and rng.random() < 0.5:
+            d0 = datetime.date(y0, 12, 31) - datetime.timedelta(days=rng.randint(0, T - 2))
+        else:
+            d0 = datetime.date(y0, 1, 1) + datetime.timedelta(days=rng.randint(0, 300))
+        return np.array([d0 + datetime.timedelta(days=n) for n in range(T)], dtype=object)
+
+    y0 = rng.randint(1950, 2060)
+    times = {"obs": axis(lens["obs"], y0), "rawV": axis(lens["rawV"], y0), "rawF": axis(lens["rawF"], y0 + 30)}
+    times.update(bcV=times["rawV"], bcF=times["rawF"])
+    forms = {n: rng.choice(["bare array", "bare array", "[data, time] list", "(data, time) tuple"]) for n in ("obs", "rawV", "bcV")}
+    pair = rng.choice(["list", "tuple"])
+    case = {"what": "short records", "relation": "short_records", "sr_seed": sr_seed, "grid": [I, J], "record_lengths": lens,
+            "statistics": stats, "metrics": [{"name": f"event{n}", "type": m[0], "threshold": m[1] if m[2] is None else [m[1], m[2]]} for n, m in enumerate(mss)],
+            "call_forms_marginal_bias": forms, "pair_container": pair, "data": {n: D[n].tolist() for n in names},
+            "time": {n: [str(d) for d in times[n]] for n in ("obs", "rawV", "rawF")},
+            "note": "regenerated from sr_seed by harness.c20.short_record_case; obs / rawV / bcV are the validation period, rawF / bcF the future period"}
+    scale = float(max(np.abs(D[n]).max() for n in names))
+    judged = {"rows": 0, "rows_guard_not_met": 0}
+
+    def problem(what, why, call_txt):
+        problems.append((f"{what}: {I}x{J} grid, record lengths {lens}: {why}", {**case, "what": what, "failing_call": call_txt}))
+
+    def pack(n):
+        f = forms[n]
+        return D[n] if f == "bare array" else ([D[n], times[n]] if f.startswith("[") else (D[n], times[n]))
+
+    def P(*xs):
+        return list(xs) if pair == "list" else tuple(xs)
+
+    def label(st):
+        return "Mean" if st == "mean" else f"{st} qn"
+
+    def judge_row(what, txt, out, key, name, ref, sc, colname="Bias"):
+        if ref is None:
+            judged["rows_guard_not_met"] += 1
+            return
+        judged["rows"] += 1
+        if out[0] == "raise":
+            real = out
+        else:
+            df = out[1]
+            sel = df[(df["Correction Method"] == key) & (df[df.columns[1]] == name)]
+            real = ("ok", None if len(sel) == 0 else np.asarray(sel[colname].iloc[0], dtype=float))
+        why = differs(real, ref, sc)
+        if why:
+            problem(what, f"{name} ('{key}', column {colname}): {why}", txt)
+
+    sts = [(st, label(st), None) for st in stats] + [("metric", mobj[n].name, mss[n]) for n in range(2)]
+    with np.errstate(all="ignore"):
+        # ---- calculate_marginal_bias: 100 (cm - obs) / obs | cm - obs (metrics: 365 days per year)
+        for bt in ("percentage", "absolute"):
+            txt = (f"calculate_marginal_bias(obs={forms['obs']}, statistics={stats}, metrics=[event0, event1], percentage_or_absolute='{bt}', "
+                   f"raw={forms['rawV']}, bc={forms['bcV']})")
+            out = call(marginal.calculate_marginal_bias, obs=pack("obs"), statistics=list(stats), metrics=list(mobj), percentage_or_absolute=bt,
+                       raw=pack("rawV"), bc=pack("bcV"))
+            for key, n in (("raw", "rawV"), ("bc", "bcV")):
+                for st, name, ms in sts:
+                    judge_row("calculate_marginal_bias", txt, out, key, name, ref_marginal(bt, st, D["obs"], D[n], ms), 365.0 if ms else scale)
+        # ---- calculate_bias_days_metrics: mean days per year in CM / Obs, Bias = CM - Obs
+        txt = f"calculate_bias_days_metrics(obs_data=[obs, time] as {pair}, metrics=[event0, event1], raw=[rawV, time], fut=[rawF, time])"
+        out = call(marginal.calculate_bias_days_metrics, obs_data=P(D["obs"], times["obs"]), metrics=list(mobj),
+                   raw=P(D["rawV"], times["rawV"]), fut=P(D["rawF"], times["rawF"]))
+        for key, n in (("raw", "rawV"), ("fut", "rawF")):
+            for k_, ms in enumerate(mss):
+                cm_, ob_ = ref_days(ms, D[n], times[n]), ref_days(ms, D["obs"], times["obs"])
+                for colname, ref in (("CM", cm_), ("Obs", ob_), ("Bias", cm_ - ob_)):
+                    judge_row("calculate_bias_days_metrics", txt, out, key, mobj[k_].name, ref, 10.0, colname)
+        # ---- trend bias 100 (bc_trend - raw_trend) / raw_trend and trend of bc, additive and multiplicative
+        for tt in ("additive", "multiplicative"):
+            for st, name, ms in sts:  # one statistic per call: a multiplicative zero guard of one statistic aborts the whole call
+                kw = dict(statistics=[] if ms else [st], metrics=[mobj[int(name[5:])]] if ms else [], trend_type=tt,
+                          time_validate=times["rawV"], time_future=times["rawF"])
+                txt = f"calculate_future_trend_bias(rawV, rawF, statistics={kw['statistics']}, metrics={[name] if ms else []}, trend_type='{tt}', bc=[bcV, bcF] as {pair})"
+                out = call(trend.calculate_future_trend_bias, raw_validate=D["rawV"], raw_future=D["rawF"], bc=P(D["bcV"], D["bcF"]), **kw)
+                judge_row("calculate_future_trend_bias", txt, out, "bc", name, ref_trend_bias(tt, st, D["rawV"], D["rawF"], D["bcV"], D["bcF"], ms), 100.0)
+                txt = f"calculate_future_trend(statistics={kw['statistics']}, metrics={[name] if ms else []}, trend_type='{tt}', bc=[bcV, bcF] as {pair})"
+                out = call(trend.calculate_future_trend, bc=P(D["bcV"], D["bcF"]), **kw)
+                judge_row("calculate_future_trend", txt, out, "bc", name, ref_trend(tt, st, D["bcV"], D["bcF"], ms), scale)
+        # ---- conditional joint exceedance P(m1 and m2) / P(m2), in percent; a metric conditioned on itself = 100
+        for key, a, b, with_time in (("v", "rawV", "bcV", False), ("f", "rawF", "bcF", True), ("o", "obs", "obs", False)):
+            xs = P(D[a], D[b], times[a]) if with_time else P(D[a], D[b])
+            for (m1, m2) in ((0, 1), (1, 1)):
+                x1 = D[a]
+                x2 = D[b] if m1 != m2 else D[a]
+                if m1 == m2:
+                    xs = P(x1, x1, times[a]) if with_time else P(x1, x1)
+                txt = f"calculate_conditional_joint_threshold_exceedance(event{m1}, event{m2}, {key}=[{a}, {b if m1 != m2 else a}{', time' if with_time else ''}] as {pair})"
+                out = call(multivariate.calculate_conditional_joint_threshold_exceedance, mobj[m1], mobj[m2], **{key: xs})
+                judge_row("calculate_conditional_joint_threshold_exceedance", txt, out, key, f"event{m1} given event{m2}", ref_chi(mss[m1], mss[m2], x1, x2),
+                          100.0, "Conditional exceedance probability")
+    if res is not None:
+        res.count(("short_records", I, J, tuple(sorted(lens.items())), tuple(sorted(forms.items())), pair, str(stats), str(mss)),
+                  min(lens.values()) <= 2)
+        for k_, v_ in judged.items():
+            res.extra["short_records_" + k_] = res.extra.get("short_records_" + k_, 0) + v_
+    for fname, lab in MUTATED:
+        problem(fname, f"the call modified the caller's argument passed as '{lab}'", None)
+    del MUTATED[:]
+    for fname, name, before, now in defaults_changed():
+        problem(fname, f"the default argument `{name}` changed from {before} to {now}", None)
+
+
 def rmse_case(k, rng, lines, expect, res):
     """correlation.rmse_spatial_correlation_distribution vs the model's exact covariances (sqrt / mean done in float here)"""
     from ibicus.evaluate import correlation
@@ -1878,6 +2026,10 @@ def run(tier, res, force_search=False):
         "thresholds of a metric may mix the accepted numeric types (int for whole numbers, float / np.float64, integer and floating arrays for local "
         "thresholds; dict keys in any order): threshold_types_case demands the documented quantity for the thresholds as written and frames bit for "
         "bit equal to those of the twin metric with all thresholds written as floats (decided by the oracle on the real code; ThresholdMetric itself belongs to C19)",
+        "a data set may have any record length: short_record_case evaluates records of 1-4 time steps (lengths that coincide with the length of the "
+        "documented pair / triple containers, with a grid dimension or with 1; two time steps may be two years), every argument bare, as a list or as a "
+        "tuple, through all five public functions, and demands the documented formula at every location under the usual guards (decided by the oracle "
+        "on the real code: which Python container an argument is belongs to the runtime; Gen/EvaluateGrid ties the unpack helper's text)",
         "rows of the returned frames are in the order debiaser (keyword order) x statistics x metrics; the positional oracle uses metric lists whose names collide (default names, same name, same object twice)",
     ]
 
@@ -1909,6 +2061,10 @@ def run(tier, res, force_search=False):
     for k in range((3 if tier == "quick" else 20) * wide):
         threshold_types_case(C.seed() * 9973 + 2020000 + k, res, problems)
     res.extra["partial_grid_and_threshold_types_wall_s"] = round(_time.time() - t_new, 2)
+    t_sr = _time.time()
+    for k in range((12 if tier == "quick" else 120) * wide):  # own PRNG stream (short records in every container form)
+        short_record_case(C.seed() * 9973 + 20200000 + k, res, problems)
+    res.extra["short_records_wall_s"] = round(_time.time() - t_sr, 2)
     rl, rex = [], []
     for k in range(4 if tier == "quick" else 40):
         rmse_case(k, rng, rl, rex, res)
@@ -1994,7 +2150,8 @@ def replay(data):
         for p, _ in probs[:10]:
             print("REPRODUCED:", p)
         return 1 if probs else 0
-    for rel_, fn_, key_ in (("partially_undefined_grid", partial_grid_case, "pg_seed"), ("threshold_value_types", threshold_types_case, "tv_seed")):
+    for rel_, fn_, key_ in (("partially_undefined_grid", partial_grid_case, "pg_seed"), ("threshold_value_types", threshold_types_case, "tv_seed"),
+                            ("short_records", short_record_case, "sr_seed")):
         if fi.get("relation") == rel_:
             probs = []
             logging.disable(logging.WARNING)
